@@ -84,7 +84,8 @@ def run_sims(work, schedules, nrandom, mode, seed, race=False, nfree=0):
         for s in schedules:
             f.write(json.dumps(s) + "\n")
     out = work.path("sim.%s.ndjson" % mode)
-    env = dict(VH_OUT=out, VH_SCHEDULES=sf, VH_RANDOM=str(nrandom), VH_MODE=mode, VERIF_SEED=str(seed), VH_FREE=str(nfree))
+    env = dict(VH_OUT=out, VH_SCHEDULES=sf, VH_RANDOM=str(nrandom), VH_MODE=mode, VERIF_SEED=str(seed), VH_FREE=str(nfree),
+               VH_GRID="1" if nrandom > 1000 else "0")
     p = common.run([binp, "-test.run", "TestSim$", "-test.timeout", "50m"], cwd=work.dir, env=env, timeout=3300)
     return out, p
 
